@@ -3,6 +3,7 @@
 export GOFLAGS=-mod=mod GOPROXY=off GOSUMDB=off GOTOOLCHAIN=local
 diff="$1"; msg="$2"; shift 2
 cd /repo || exit 1
+if [ -n "$(git status --porcelain)" ]; then echo "/repo is not clean (stray files would be committed): $(git status --porcelain | head -3)"; exit 1; fi
 git apply --check "$diff" || { echo "DOES NOT APPLY: $diff"; exit 1; }
 git apply "$diff" || exit 1
 if ! go build ./... ; then echo "BUILD FAILED"; git checkout -- .; exit 1; fi
